@@ -402,7 +402,8 @@ def unsorted_arrays(ctx, Time, drv):
     D = lambda y, m, d: (datetime(y, m, d) - DT2000).days
     noon, us_any = 43200 * 10**6, lambda: rng.randint(0, DAY_US - 1)
     lists = []
-    years = [2019, 2020, 1999, 2000, 2015, 2016, 2008, 2012, 2023, 2024, 2096, 2099] + [rng.randint(1981, 2098) for _ in range(ctx.budget(4, 60))]
+    years = [2019, 2020, 1999, 2015, 2016] + rng.sample([2000, 2008, 2012, 2023, 2024, 2096, 2099], ctx.budget(2, 7)) \
+        + [rng.randint(1981, 2098) for _ in range(ctx.budget(1, 60))]
     for y in years:
         # stacked series: the end of year y, the start of y + 1, then year y again (first and last in y)
         lists.append(("stacked-years", [(D(y, 11, 15), noon), (D(y, 12, 15), us_any()), (D(y + 1, 1, 15), 0), (D(y + 1, 2, 15), us_any()),
@@ -410,7 +411,7 @@ def unsorted_arrays(ctx, Time, drv):
         # first and last in y + 1, the year before and the year after in between, next to the boundaries
         lists.append(("wrapped-year", [(D(y + 1, 3, 1), us_any()), (D(y, 12, 31), DAY_US - 1), (D(y + 1, 1, 1), 0), (D(y, 1, 1), 0), (D(y, 2, 28), us_any()),
                                        (D(y + 2, 1, 1), 1), (D(y - 1, 12, 31), us_any()), (D(y + 1, 12, 31), DAY_US - 10)]))
-    for _ in range(ctx.budget(4, 40)):
+    for _ in range(ctx.budget(2, 40)):
         y = rng.randint(1981, 2097)
         srt = sorted((rng.randint(D(y, 1, 1), D(y + 3, 1, 1) - 1), us_any()) for _ in range(rng.randint(3, 9)))
         lists.append(("reversed", srt[::-1]))
@@ -418,11 +419,11 @@ def unsorted_arrays(ctx, Time, drv):
         rng.shuffle(sh)
         same_year = [(D(y + 1, 6, 1), us_any())] + sh + [(D(y + 1, 7, 1), us_any())]
         lists.append(("shuffled-first-last-same-year", same_year))
-    for d in (D(2016, 12, 31), D(2015, 6, 30), D(2000, 2, 29), D(1999, 12, 31), D(2019, 4, 6), rng.randint(D(1981, 1, 1), D(2099, 1, 1))):
+    for d in [D(2016, 12, 31), D(2000, 2, 29), rng.randint(D(1981, 1, 1), D(2099, 1, 1))] + ([D(2015, 6, 30), D(1999, 12, 31), D(2019, 4, 6)] if ctx.budget(0, 1) else []):
         # first and last on the same day (and in the same week / table row), others days, weeks and rows apart
         lists.append(("wrapped-day", [(d, 10**6), (d + 1, 0), (d - 1, DAY_US - 1), (d + 7, us_any()), (d - 7 * 1024, noon), (d + 400, us_any()), (d, DAY_US - 2 * 10**6)]))
     g0 = D(1980, 1, 6)
-    for wk in (1023, 1024, 2047, 2048, rng.randint(10, 3000)):
+    for wk in rng.sample([1023, 1024, 2047, 2048], ctx.budget(2, 4)) + [rng.randint(10, 3000)]:
         # first and last in the same GPS week, the neighbouring weeks in between
         lists.append(("wrapped-week", [(g0 + 7 * wk + 1, us_any()), (g0 + 7 * wk + 7, 0), (g0 + 7 * wk - 1, DAY_US - 1), (g0 + 7 * (wk + 2), noon), (g0 + 7 * wk + 6, DAY_US - 1)]))
     for name, eps in lists:
